@@ -283,7 +283,38 @@ func fiatReduced(cfg, name, pos string, d *absint.LimbDom, ov, aV, bV *poly.Poly
 			o.Detail = name + ": the minuend of the final subtraction is not a + b"
 		}
 	} else {
-		o.Detail += " (X < 2l is the Montgomery bound for operands < l: not decided)"
+		// Montgomery bound: X·2^256 = (product) + M·l over the integers, with M = Σ m_i·2^(64i) built from the four
+		// 64-bit words m_i that the body multiplies by the low word of l (one per round). Then M < 2^256 and
+		// product < l·2^256 (operands below l, resp. one operand below l and the constant R² mod l below l) give
+		// X < l + l = 2l.
+		l0 := new(big.Int).And(absint.L25519, new(big.Int).Sub(two(64), big.NewInt(1)))
+		M := d.R.Int(0)
+		n := 0
+		max64 := new(big.Int).Sub(two(64), big.NewInt(1))
+		wordsOK := true
+		for _, m := range d.MulLog {
+			if m.Const.Cmp(l0) == 0 {
+				if m.OtherHi.Cmp(max64) > 0 {
+					wordsOK = false
+				}
+				M = M.Add(m.Other.Scale(two(uint(64 * n))))
+				n++
+			}
+		}
+		var prod *poly.Poly
+		switch name {
+		case "fiatScalarMul":
+			prod = aV.Mul(bV)
+		case "fiatScalarToMontgomery":
+			// a · (R² mod l)
+			r2 := new(big.Int).Exp(two(256), big.NewInt(2), absint.L25519)
+			prod = aV.Scale(r2)
+		}
+		if prod != nil && n == 4 && wordsOK && X.Scale(two(256)).Sub(prod).Equal(M.Scale(absint.L25519)) {
+			o.Detail += "; X·2^256 = product + M·l exactly, M the four reduction words (each < 2^64) multiplied by l, so X < (l·2^256 + 2^256·l)/2^256 = 2l and 0 ≤ out < l"
+		} else {
+			o.Detail += fmt.Sprintf(" (X < 2l is the Montgomery bound for operands < l: not decided — %d reduction words found)", n)
+		}
 	}
 	return o
 }
